@@ -313,7 +313,7 @@ fn execute(case: &ConcCase, check_lin: bool) -> Result<(Vec<Rec>, ConcStats), St
 }
 
 pub fn run_c05(case: &ConcCase) -> Result<ConcStats, String> {
-    let (recs, stats) = execute(case, true)?;
+    let (recs, mut stats) = execute(case, true)?;
     let nk = (case.nkeys as usize).clamp(1, KEYS.len());
     for k in 0..nk as u8 {
         let ops: Vec<KOp> = recs
@@ -323,7 +323,13 @@ pub fn run_c05(case: &ConcCase) -> Result<ConcStats, String> {
         if ops.len() > 63 {
             continue;
         }
-        if !linearizable(&ops) {
+        let verdict = crate::lin::linearizable_within(&ops, 3_000_000);
+        if verdict.is_none() {
+            // undecided within the state budget (many indeterminate writes): neither pass nor violation
+            stats.classes.push("linearizability_search_budget_exceeded_for_a_key");
+            continue;
+        }
+        if verdict == Some(false) {
             let w = simple_witness(&ops).unwrap_or_else(|| "no single-read witness; the complete search over all orders failed".into());
             let mut hist: Vec<String> = ops
                 .iter()
@@ -368,9 +374,9 @@ fn directive(nthreads: usize) -> impl Strategy<Value = Directive> {
     let bg_points = vec!["flush.before_build", "manifest.before_append", "manifest.after_append", "compaction.step", "gc.before_delete", "gc.after_delete"];
     prop_oneof![
         3 => (0..nthreads as i32, select(client_points), 0u32..4, 20u32..150)
-            .prop_map(|(role, p, nth, max_hold_ms)| Directive { role, point: p.to_string(), nth, max_hold_ms, linger_ms: 0 }),
+            .prop_map(|(role, p, nth, max_hold_ms)| Directive { role, point: p.to_string(), nth, max_hold_ms, linger_ms: 0, every: 0 }),
         1 => (select(bg_points), 0u32..3, 20u32..120)
-            .prop_map(|(p, nth, max_hold_ms)| Directive { role: -1, point: p.to_string(), nth, max_hold_ms, linger_ms: 0 }),
+            .prop_map(|(p, nth, max_hold_ms)| Directive { role: -1, point: p.to_string(), nth, max_hold_ms, linger_ms: 0, every: 0 }),
     ]
 }
 
@@ -397,7 +403,7 @@ pub fn c05_fault_strategy() -> BoxedStrategy<ConcCase> {
             c.wal_fault = Some(n);
             for (role, nth, ms) in holds {
                 if (role as usize) < c.programs.len() {
-                    c.directives.push(Directive { role, point: "write.before_wal".into(), nth, max_hold_ms: ms, linger_ms: 0 });
+                    c.directives.push(Directive { role, point: "write.before_wal".into(), nth, max_hold_ms: ms, linger_ms: 0, every: 0 });
                 }
             }
             c
@@ -435,7 +441,7 @@ pub fn c09_forced_strategy() -> BoxedStrategy<ConcCase> {
         0u32..6,
         10u32..60,
     )
-        .prop_map(|(p, nth, max_hold_ms)| Directive { role: -1, point: p.to_string(), nth, max_hold_ms, linger_ms: 0 });
+        .prop_map(|(p, nth, max_hold_ms)| Directive { role: -1, point: p.to_string(), nth, max_hold_ms, linger_ms: 0, every: 0 });
     let random = (c09_strategy(), prop::collection::vec(bg, 1..4)).prop_map(|(mut c, d)| {
         c.directives = d;
         c
@@ -475,8 +481,8 @@ pub fn c09_forced_strategy() -> BoxedStrategy<ConcCase> {
                 nkeys: 6,
                 programs: vec![p0, p1],
                 directives: vec![
-                    Directive { role: 1, point: "get.unlocked".into(), nth: 0, max_hold_ms: delay, linger_ms: 0 },
-                    Directive { role: -1, point: "compaction.step".into(), nth, max_hold_ms: hold, linger_ms: 0 },
+                    Directive { role: 1, point: "get.unlocked".into(), nth: 0, max_hold_ms: delay, linger_ms: 0, every: 0 },
+                    Directive { role: -1, point: "compaction.step".into(), nth, max_hold_ms: hold, linger_ms: 0, every: 0 },
                 ],
                 wal_fault: None,
                 preload: 0,
@@ -489,7 +495,7 @@ pub fn c09_forced_strategy() -> BoxedStrategy<ConcCase> {
         for p in c.programs.iter_mut() {
             p.truncate(25);
         }
-        c.directives = vec![Directive { role: -1, point: "worker.tasks_drained".into(), nth, max_hold_ms, linger_ms }];
+        c.directives = vec![Directive { role: -1, point: "worker.tasks_drained".into(), nth, max_hold_ms, linger_ms, every: 0 }];
         c
     });
     // Level-0 pile: a preloaded WAL is replayed into a dozen or more level-0 files; the background
@@ -500,7 +506,7 @@ pub fn c09_forced_strategy() -> BoxedStrategy<ConcCase> {
         c.cfg.memtable = 512;
         c.directives = holds
             .into_iter()
-            .map(|(nth, max_hold_ms)| Directive { role: -1, point: "compaction.step".into(), nth, max_hold_ms, linger_ms: 0 })
+            .map(|(nth, max_hold_ms)| Directive { role: -1, point: "compaction.step".into(), nth, max_hold_ms, linger_ms: 0, every: 0 })
             .collect();
         c
     });
